@@ -18,6 +18,9 @@ CHECKS = {
  "C04": dict(tech="crash/exit/hang monitors in supervised child processes + return-shape predicate + logical cost monitor over exhaustive single-fault and sampled double-fault JSON mutations",
    text="Every single schema fault at every JSON path of four hand-written representative documents, sampled (thorough: 1.2 M) double faults, truncations, token soups, 10 000-deep nesting and size series are pushed through SniffReader, ParseStream and ParseStreamWithOptions for all 7 registered formats inside supervised children: recover() reports panics with the panicking function as signature, a dead child is attributed to the case logged before it ran, the return-shape predicate is checked on every call, and growth exponents of allocated bytes decide the polynomial-time clause (a CPU/heap watchdog, never wall time, decides hangs).",
    note="'All byte strings' is sampled; exhaustive only over the single-fault space of the representative documents. Known finding cdx-license-expression-exponential (keyed by the licences path) is confirmed on every run.", ref="DESIGN.md §5 C04"),
+ "C05": dict(tech="invariant monitor on parsed graphs + metamorphic oracle over >=9 JSON re-encodings, repeated and explicit-format parses",
+   text="Inputs from the harness's own SPDX 2.3 and CycloneDX 1.3-1.5 JSON generators (arbitrary nesting, duplicate/missing bom-refs, absent metadata component, self-containment, special relationship targets), from protobom's writers and from mutated real SBOMs are parsed; an invariant monitor checks closure, id non-emptiness/uniqueness relative to the input and the alphabet/uniqueness of generated ids; each input is re-parsed from the same bytes, with the format stated explicitly and under white-space, member-order and string-escape re-encodings produced by an order-preserving JSON tree, and all parses must be equivalent with identical identifiers. NewNodeIdentifier is monitored on arbitrary seeds.",
+   note="Array order is part of the JSON value and is not permuted. Escapes in strings that tools-golang reads from raw bytes are the known finding spdx-raw-string-escape (computed signature: the same escape mode with those positions left alone must be equivalent).", ref="DESIGN.md §5 C05"),
  "C08": dict(tech="invariant monitor (well-formed / normalised) after every step of exhaustive small-universe and random operation programs",
    text="Runtime invariant monitoring: every result of every editing operation is checked for well-formedness (and normalisation where the statement requires it), RemoveNodes against its exact set model. All 4301 well-formed lists on <=3 ids are enumerated as receivers (thorough: against all 4301 arguments), plus random operation histories whose results re-enter the pool. Decides the property for the executions produced; exhaustive only on the enumerated universe.",
    note="Trusts the harness's own WF/normalised predicates and protobuf reflection (proto.Clone). Operands are well-formed by construction and re-checked before each step.", ref="DESIGN.md §5 C08"),
